@@ -19,7 +19,8 @@ def _cargo_check(gen, name, progs, prefix, build=False):
     os.makedirs(os.path.join(d, "src"), exist_ok=True)
     with open(os.path.join(d, "Cargo.toml"), "w") as f:
         f.write(f'[package]\nname = "{name}"\nversion = "0.0.0"\nedition = "2021"\n\n[dependencies]\n'
-                'retrofire-core = { path = "/repo/core", features = ["std"] }\n\n[workspace]\n')
+                'retrofire-core = { path = "/repo/core", features = ["std"] }\n'
+                'retrofire-geom = { path = "/repo/geom", features = ["std"] }\n\n[workspace]\n')
     src, ranges = gen.crate_source(progs, prefix)
     with open(os.path.join(d, "src", "lib.rs"), "w") as f:
         f.write(src)
